@@ -894,18 +894,35 @@ theorem RevOk.step_mapBody {s0 s : Sess} (h : RevOk s0 s) (g : List Node → Lis
     · exact Or.inr hx
   exact h.revs x this
 
-theorem RevOk.step_nestedReplace {s0 s : Sess} (h : RevOk s0 s) (insId newText : Str) (comment : Option Str) :
-    RevOk s0 (nestedReplace s insId newText comment).1 := by
+theorem RevOk.step_mapPart {s0 s : Sess} (h : RevOk s0 s) (pi : Nat) (g : List Node → List Node)
+    (hg : ∀ ns x, x ∈ revsNodes (g ns) → x ∈ revsNodes ns) :
+    RevOk s0 { s with doc := modPart s.doc pi (mapNodesBlocks g) } := by
+  refine ⟨h.grows.trans (Grows_mapPart s pi g), ?_⟩
+  intro x hx
+  rcases revs_modPart (fun _ => False) s.doc pi (mapNodesBlocks g)
+    (fun bs y hy => Or.inl (revs_mapNodesBlocks g hg bs y hy)) x hx with h' | h'
+  · exact h.revs x h'
+  · exact h'.elim
+
+theorem RevOk.step_nestedIns {s0 s : Sess} (h : RevOk s0 s) (text : Str) (style : Option Run) (comment : Option Str) :
+    InsertOk s0 (nestedIns s text style comment) := by
+  unfold nestedIns
+  split
+  · exact InsertOk.inline h _
+  · exact h.step_trackInsert _ _ _ _ _ _
+
+theorem RevOk.step_nestedReplace {s0 s : Sess} (h : RevOk s0 s) (pi : Nat) (insId newText : Str) (comment : Option Str) :
+    RevOk s0 (nestedReplace s pi insId newText comment).1 := by
   unfold nestedReplace
-  have hr : RevOk s0 { s with doc := { s.doc with body := (rejectChange insId s.doc.body).1 } } :=
-    h.step_mapBody _ (fun ns x hx => revs_rejectN insId ns x hx)
+  have hr : RevOk s0 { s with doc := modPart s.doc pi fun bs => (rejectChange insId bs).1 } :=
+    h.step_mapPart pi _ (fun ns x hx => revs_rejectN insId ns x hx)
   split
   · exact h
   · simp only
     split
     · exact hr
-    · generalize hq : trackInsert { s with doc := { s.doc with body := (rejectChange insId s.doc.body).1 } } newText _ false default comment false = r
-      have hI : InsertOk s0 r := by rw [← hq]; exact hr.step_trackInsert _ _ _ _ _ _
+    · generalize hq : nestedIns { s with doc := modPart s.doc pi fun bs => (rejectChange insId bs).1 } newText _ comment = r
+      have hI : InsertOk s0 r := by rw [← hq]; exact hr.step_nestedIns _ _ _
       split
       · exact hI.ok
       · rename_i insNode hn
@@ -950,7 +967,7 @@ theorem RevOk.step_applyIndexed {s0 s : Sess} (h : RevOk s0 s) (clean : Bool) (s
   split
   · exact h
   · split
-    · exact h.step_nestedReplace _ _ _
+    · exact h.step_nestedReplace _ _ _ _
     · split
       · exact h.step_applyInsertion _ _ _ _
       · exact h.step_applyReplace _ _ _ _ _ _
